@@ -309,6 +309,13 @@ func (e *Engine) oblige(st *State, kind, detail string, pos token.Pos, goal *Ter
 		e.assumeQuiet(st, goal)
 		return
 	}
+	// an equivalence with quantified sides is checked as two implications (each quantifier then has one polarity)
+	if goal.Op == "=" && len(goal.Args) == 2 && goal.Args[0].Sort == SBool && termHasQuant(goal) {
+		goal = e.tb.And(e.tb.Implies(goal.Args[0], goal.Args[1]), e.tb.Implies(goal.Args[1], goal.Args[0]))
+	} else if goal.Op == "=>" && goal.Args[1].Op == "=" && len(goal.Args[1].Args) == 2 && goal.Args[1].Args[0].Sort == SBool && termHasQuant(goal.Args[1]) {
+		a, b := goal.Args[1].Args[0], goal.Args[1].Args[1]
+		goal = e.tb.Implies(goal.Args[0], e.tb.And(e.tb.Implies(a, b), e.tb.Implies(b, a)))
+	}
 	// a conjunction with quantified parts is checked conjunct by conjunct (smaller queries, better localisation)
 	if goal.Op == "=>" && goal.Args[1].Op == "and" && len(goal.Args[1].Args) <= 48 {
 		var cs []*Term
@@ -410,4 +417,26 @@ func (e *Engine) typeTag(t types.Type) int64 {
 	e.typeTags[k] = id
 	e.tagTypes[id] = t
 	return id
+}
+
+// termHasQuant reports whether a quantifier occurs in t.
+func termHasQuant(t *Term) bool {
+	seen := map[*Term]bool{}
+	var rec func(x *Term) bool
+	rec = func(x *Term) bool {
+		if x == nil || seen[x] {
+			return false
+		}
+		seen[x] = true
+		if x.Op == "forall" || x.Op == "exists" {
+			return true
+		}
+		for _, a := range x.Args {
+			if rec(a) {
+				return true
+			}
+		}
+		return false
+	}
+	return rec(t)
 }
